@@ -183,6 +183,10 @@ broadcast proof fn lemma_locate_unique(s: XSet, x: Val, x1: Result<KeyLocation, 
 spec fn findable(s: XSet, x: Val) -> bool {
     exists|h: u64, i: usize| #[trigger] locate_post(s, x, Ok::<Result<KeyLocation, ErrV>, RuntimeViolation>(Ok(KeyLocation::Found((h, i)))))
 }
+/// the key is absent: locate's postcondition admits a clean answer that is not Found
+spec fn absent(s: XSet, x: Val) -> bool {
+    exists|loc: KeyLocation| #[trigger] locate_post(s, x, Ok::<Result<KeyLocation, ErrV>, RuntimeViolation>(Ok(loc))) && !(loc is Found)
+}
 /// the table t1 is t0 with the i-th entry of bucket h removed
 spec fn removed_at(t0: Map<u64, Vec<Val>>, t1: Map<u64, Vec<Val>>, h: u64, i: int) -> bool {
     &&& t0.contains_key(h) && 0 <= i < t0[h]@.len()
